@@ -21,7 +21,9 @@ _A_BYTES = 'A-bytes: contracts of bytes::{Buf,BufMut,Bytes,BytesMut} as written 
 _A_UTF8 = 'A-utf8: lossy(utf8(s)) == s and |utf8(lossy(b))| <= 3|b| for the uninterpreted UTF-8 functions'
 _A_LOG = 'A-log (W7): log macro arguments are not evaluated in the verified text; logging neither panics nor changes results'
 _A_W8 = 'A-W8/W9: the mechanical loop-header (enumerate) and `mut self` rewrites preserve semantics'
-_A_TERM = 'A-term: termination of the recursive encoder IppValue::{to_tag,to_bytes} is not proved (exec_allows_no_decreases_clause)'
+_A_TERM = ('termination of the recursive encoder IppValue::{to_tag,to_bytes} IS proved (decreases: container-or-scalar, then the value '
+           'as a sub-term) using vstd\'s structural axioms for Vec and BTreeMap (axiom_vec_index_decreases, axiom_btree_map_decreases, '
+           'axiom_map_index_decreases)')
 _A_U16 = ('read_u16/read_u32 bodies are outside Verus (u16::from_be_bytes cannot be specified); their contract is discharged '
           'by the Kani harnesses reader_u16_u32_* for every byte content over a fragmenting, faulting reader')
 
@@ -91,8 +93,8 @@ PROPS = {
                         'vstd: proved = every emitted group is a non-operation group of the message, with its own delimiter and each of its '
                         'attributes exactly once; assumed = all of them, in message order',
                         'groups_of / is_header_attr contracts assumed (see C09); precondition groups_wf'],
-        'uncovered': ['the statement "read back by an independent decoder the content equals the message" is the composition of this '
-                      'encoder specification with C04\'s machine; the composing lemma (C01) is not proved yet'],
+        'uncovered': ['"read back by an independent decoder" is discharged as the composition of this encoder specification with the RFC '
+                      'machine of C04: verif_roundtrip::lemma_message_roundtrip (proved, counted under C01) on the domain stated there'],
         'bounded': ['c03', 'container'],
         'design_ref': '§4 C03',
     },
@@ -107,24 +109,31 @@ PROPS = {
                         'over tokens, legal tokens only); it is reviewed, not derived from a grammar-directed semantics',
                         'A-string-ext / A-string-hash / A-string-ord: String is determined by its content and obeys vstd\'s hash and '
                         'comparison key models; vstd\'s HashMap/BTreeMap/Vec models',
-                        'IppParser::new / AsyncIppParser::new (generic Into<Reader>) are trusted to start from ParserState::new()',
+                        'IppParser::new / AsyncIppParser::new are verified to start from the initial state; that `reader.into()` (generic Into<Reader>) '
+                        'hands over the same stream is assumed',
                         'IppAttribute::new(name, value) keeps the value (AsRef<str> bound unsupported)',
                         'attribute name text is the lossy decoding of the name octets (A-utf8); the attribute\'s own `name` field '
                         '(as opposed to its map key) is not part of the abstraction'],
-        'uncovered': ['messages that are not well-formed (m_run = None): only rejection of out-of-range tag bytes, panic-freedom and exact '
-                      'consumption are proved for them (C02, C06), not what content is returned'],
+        'uncovered': ['messages that are not well-formed (m_run = None) have no RFC meaning; what the parser does with them is pinned down by the '
+                      'total function of C05 (specs/verif_total.rs), which is a description of the code, not an oracle'],
         'bounded': ['c04'],
         'design_ref': '§4 C04',
     },
     'C05': {
         'title': 'async parser == blocking parser',
-        'verus': _READER + _AREADER + _DRIVE + _ADRIVE + _STATE,
+        'verus': _READER + _AREADER + _DRIVE + _ADRIVE + _STATE + _VALDEC
+                 + [r'^verif_total::(t_run|lemma_t_flush_m|lemma_t_delim_m|lemma_t_value_m|lemma_t_refines_m|lemma_same_outcome)$'],
         'kani': _K_RD_FAST + _K_RD_ASYNC,
         'kani_thorough': _K_RD_ALL,
-        'assumptions': [_A_STREAM, _A_LOG, _A_W8, _A_U16,
+        'assumptions': [_A_STREAM, _A_LOG, _A_W8, _A_U16, _A_BYTES, _A_UTF8,
+                        'the common function is specs/verif_total.rs::t_run, a total description of the shared state machine on every '
+                        'byte string (malformed ones included); both front ends are proved to conform to it, so they agree; on '
+                        'well-formed input it is proved equal to the RFC oracle of C04 (lemma_t_refines_m). Equality is over the '
+                        'abstract view (group tags, name -> value maps, values through `aval`) plus header fields and unread bytes',
                         'no interleaving is explored: the schedule quantifier is carried by the assumed contract of the '
                         'read_exact future plus Rust\'s guarantee that locals survive suspension'],
-        'uncovered': ['the I/O error kind is not tracked through `?` by Verus (see C07 for the Kani part)'],
+        'uncovered': ['the I/O error kind is not tracked through `?` by Verus (see C07 for the Kani part): proved = both fail / both fail with '
+                      'InvalidTag of the same byte / both fail with InvalidCollection / both succeed with the same content and unread bytes'],
         'bounded': ['c05'],
         'design_ref': '§4 C05',
     },
